@@ -2,6 +2,7 @@
 
 Every primitive returns plain data (sites, paths); rules/Cxx.py turn them into obligations.
 """
+from . import facts as _facts_mod
 from .facts import Facts, Body, Call, CheckBroken, path_matches, short, canon, NOISE_MACROS
 from .desc import Describer, walk, render, norm_bin
 
@@ -37,7 +38,7 @@ def is_panic_call(call):
 # describer cache
 # --------------------------------------------------------------------------
 
-_DESC = {}
+_DESC = _facts_mod.register_memo({})
 
 
 def describer(facts, body, stop_named=False):
@@ -111,7 +112,7 @@ class Branch:
         return '%s:%d' % (self.body.file, self.line)
 
 
-_BR = {}
+_BR = _facts_mod.register_memo({})
 
 
 def branches(facts, body, stop_named=False):
@@ -193,7 +194,7 @@ def closure_args(facts, call):
     return res
 
 
-_MAY = {}
+_MAY = _facts_mod.register_memo({})
 
 
 def may_reach(facts, body, pats, depth=3):
@@ -234,7 +235,7 @@ def site_may_reach(facts, call, pats, depth=3):
     return False
 
 
-_MUST = {}
+_MUST = _facts_mod.register_memo({})
 
 
 def must_call(facts, body, pats, depth=3):
@@ -367,7 +368,7 @@ class Write:
         return 'Write(%s %s @%s)' % (self.kind, self.where(), self.body.short)
 
 
-_FW = {}
+_FW = _facts_mod.register_memo({})
 
 
 def field_writes(facts, adt_pat, name, crate=None, include_borrows=True):
@@ -464,7 +465,7 @@ class Construct:
         return 'Construct(%s::%s @%s %s)' % (short(self.adt), self.variant, self.body.short, self.where())
 
 
-_CN = {}
+_CN = _facts_mod.register_memo({})
 
 
 def constructions(facts, adt_pat, variant=None, crate=None):
